@@ -21,6 +21,8 @@ func main() {
 		cmdRun(os.Args[2:])
 	case "check":
 		os.Exit(cmdCheck(os.Args[2:]))
+	case "replay":
+		os.Exit(cmdReplay(os.Args[2:]))
 	default:
 		fmt.Fprintln(os.Stderr, "unknown command")
 		os.Exit(2)
@@ -95,9 +97,15 @@ func cmdRun(args []string) {
 		}
 	}
 	obSum := map[string]int{}
+	roundSum := map[string]int{}
 	st, err := exec.Explore(w, cfg, entry, *workers, *maxPaths, *timeout, *solver, func(r *exec.PathResult) {
 		if *verbose || r.Status != exec.PathOK {
 			fmt.Printf("path %v: %s %s %s steps=%d q=%d\n", r.Trace, r.Status, r.Detail, r.PanicMsg, r.Steps, r.Queries)
+		}
+		for k, v := range r.Funcs {
+			if strings.HasPrefix(k, "<") {
+				roundSum[k] += v
+			}
 		}
 		for _, o := range r.Obligations {
 			obSum[o.ID+":"+o.Result]++
@@ -171,5 +179,8 @@ func cmdRun(args []string) {
 		fmt.Printf("replayed %d cases (build %.1fs)\n", len(res), rp.BuildTime.Seconds())
 	}
 	fmt.Printf("obligations=%v\n", obSum)
+	for k, v := range roundSum {
+		fmt.Printf("  %s: %d\n", k, v)
+	}
 	fmt.Printf("paths=%d status=%v queries=%d solver=%.2fs wall=%.2fs truncated=%v\n", st.Paths, st.ByStatus, st.Queries, st.SolverTime.Seconds(), st.Wall.Seconds(), st.Truncated)
 }
